@@ -124,6 +124,12 @@ def check(ctx):
     ctx.floor('A5f', 6, 'conditional-activeness flag sites')
     from ..rules import indexspace as _ixg
     _ixg.check_global_row_ids(ctx, f'{GP}.get_all_discrete_x')
+    from ..rules import shapes as _shr
+    _shr.check_sibling_reductions(ctx)
+    # the enumeration is memoised: whatever it reads is invalidated when fix/free changes it (enumeration and
+    # decode have to keep reporting the same activeness)
+    from ..rules import invalidate as _inv7
+    _inv7.check_invalidation(ctx, GP)
 
 
 from ..selftest import V  # noqa: E402
